@@ -450,3 +450,80 @@ func runLspHistory(c *runCtx, pool *childPool, drv *Driver, steps []lspStep, sam
 		}
 	}
 }
+
+// lspFormatText: the language server's format action on a document holding `text` (in-process server over pipes):
+// the text after applying the edits it answers (the server replaces the whole document, or answers no edit).
+func lspFormatText(text string, insertSpaces bool, tabSize int) (formatted string, ok bool) {
+	inR, inW := io.Pipe()
+	var out bytes.Buffer
+	outDone := make(chan struct{})
+	outR, outW := io.Pipe()
+	go func() { io.Copy(&out, outR); close(outDone) }()
+	srv := lsp.NewServer(inR, outW, log.New(io.Discard, "", 0))
+	runDone := make(chan struct{})
+	go func() {
+		defer func() { _ = recover(); close(runDone) }()
+		_ = srv.Run()
+	}()
+	uri := "file:///f.sql"
+	msgs := []string{
+		`{"jsonrpc":"2.0","id":1,"method":"initialize","params":{"capabilities":{}}}`,
+		`{"jsonrpc":"2.0","method":"textDocument/didOpen","params":{"textDocument":{"uri":` + jstr(uri) + `,"languageId":"sql","version":1,"text":` + jstr(text) + `}}}`,
+		fmt.Sprintf(`{"jsonrpc":"2.0","id":"fmt","method":"textDocument/formatting","params":{"textDocument":{"uri":%s},"options":{"tabSize":%d,"insertSpaces":%v}}}`, jstr(uri), tabSize, insertSpaces),
+		`{"jsonrpc":"2.0","id":2,"method":"shutdown"}`,
+	}
+	var in strings.Builder
+	for _, m := range msgs {
+		in.WriteString(frameLSP(m))
+	}
+	go func() { io.WriteString(inW, in.String()); inW.Close() }()
+	select {
+	case <-runDone:
+	case <-time.After(10 * time.Second):
+		return "", false
+	}
+	outW.Close()
+	<-outDone
+	rd := bufio.NewReader(bytes.NewReader(out.Bytes()))
+	for {
+		line, err := rd.ReadString('\n')
+		if err != nil {
+			return "", false
+		}
+		n, err := strconv.Atoi(strings.TrimSuffix(strings.TrimPrefix(line, "Content-Length: "), "\r\n"))
+		if err != nil {
+			return "", false
+		}
+		if sep, _ := rd.ReadString('\n'); sep != "\r\n" {
+			return "", false
+		}
+		body := make([]byte, n)
+		if _, err := io.ReadFull(rd, body); err != nil {
+			return "", false
+		}
+		var msg struct {
+			ID     json.RawMessage `json:"id"`
+			Result json.RawMessage `json:"result"`
+			Error  json.RawMessage `json:"error"`
+		}
+		if json.Unmarshal(body, &msg) != nil || string(msg.ID) != `"fmt"` {
+			continue
+		}
+		if len(msg.Error) > 0 && string(msg.Error) != "null" {
+			return "", false
+		}
+		var edits []struct {
+			NewText string `json:"newText"`
+		}
+		if len(msg.Result) == 0 || string(msg.Result) == "null" {
+			return text, true
+		}
+		if json.Unmarshal(msg.Result, &edits) != nil {
+			return "", false
+		}
+		if len(edits) == 0 {
+			return text, true
+		}
+		return edits[0].NewText, true
+	}
+}
